@@ -53,7 +53,8 @@ def _hooks(xpaths):
 
     def h_iov(i, a, k, n):
         aa = [x for x in a if not (isinstance(x, Obj) and (x.name == "survey" or (x.cls is not None and x.cls.name == "Survey")))]
-        return (Sym("TEXT", truthy=True, pytype=str), False)
+        t = aa[0] if aa else k.get("text")
+        return (t if isinstance(t, str) else Sym("TEXT", truthy=True, pytype=str), False)
 
     def h_ix(i, a, k, n):
         aa = [x for x in a if not (isinstance(x, Obj) and (x.name == "survey" or (x.cls is not None and x.cls.name == "Survey")))]
@@ -148,6 +149,28 @@ def run(ctx):
             continue
         r2.check(em <= ids, f"Question[{desc}]", f"every emitted itext id is registered", "pyxform/survey_element.py",
                  why_fail=f"emitted {sorted(em)} registered {sorted(ids)}")
+        # ... and nothing the author typed is lost on the way: each text is either written inline or filed in the
+        # translations under its own language (the '-' placeholders are added later by the padder)
+        shown = set()
+        for nd in nodes:
+            if isinstance(nd, NodeVal) and isinstance(nd.text, str):
+                shown.add(("inline", nd.text))
+        for lang_, d_ in tr.items():
+            for id_, forms_ in d_.items():
+                for form_, leaf_ in forms_.items():
+                    if isinstance(leaf_, dict) and "text" in leaf_:
+                        shown.add((lang_, leaf_["text"]))
+        lost = []
+        for what, val in (("label", lv), ("hint", hv), ("guidance_hint", gv)):
+            if isinstance(val, str) and val:
+                if not any(t == val for _l, t in shown):
+                    lost.append(f"{what} {val!r}")
+            elif isinstance(val, dict):
+                for lang_, t_ in val.items():
+                    if (lang_, t_) not in shown:
+                        lost.append(f"{what}[{lang_}] {t_!r}")
+        r2.check(not lost, f"Question[{desc}]:texts kept", "every label / hint / guidance text is written inline or filed under its own language", "pyxform/survey_element.py",
+                 why_fail=f"lost: {lost}")
     # groups and repeats: label x media only (no hint control in the body)
     for cls, cname in ((gcls, "group"), (rcls, "repeat")):
         for (ln, lv), (mn, mv) in itertools.product(LABELS.items(), MEDIA.items()):
